@@ -287,53 +287,82 @@ Definition and_r (a : rres bool) (b : rres bool) : rres bool :=
   | other => other
   end.
 
-(* the zipped loop of DeepEqual over two iterators of equal length *)
+(* the zipped loop of DeepEqual over two iterators (of equal length): stops at the first pair
+   that is not equal *)
+Fixpoint zip_r {A B} (f : A -> B -> rres bool) (xs : list A) (ys : list B) : rres bool :=
+  match xs, ys with
+  | a :: xs', b :: ys' => and_r (f a b) (zip_r f xs' ys')
+  | _, _ => ROk true
+  end.
+Fixpoint zip_b {A B} (f : A -> B -> bool) (xs : list A) (ys : list B) : bool :=
+  match xs, ys with
+  | a :: xs', b :: ys' => f a b && zip_b f xs' ys'
+  | _, _ => true
+  end.
+
+Definition key_eq (k : bytes) (kn : node) : rres bool :=
+  match as_string kn with Ok k' => ROk (bytes_eqb k k') | Err _ => RPanic end.
+
+(* the map loop: key, then value, then the rest *)
+Fixpoint zip_kv (f : node -> node -> rres bool) (xs : list (bytes * node)) (ys : list (node * node))
+  : rres bool :=
+  match xs, ys with
+  | (k, a) :: xs', (kn, b) :: ys' => and_r (key_eq k kn) (and_r (f a b) (zip_kv f xs' ys'))
+  | _, _ => ROk true
+  end.
+Fixpoint zip_kvb (f : dm -> dm -> bool) (xs ys : list (bytes * dm)) : bool :=
+  match xs, ys with
+  | (k, a) :: xs', (k', b) :: ys' => bytes_eqb k k' && (f a b && zip_kvb f xs' ys')
+  | _, _ => true
+  end.
+
+(* the scalar cases: both sides through the accessor of the (common) kind; an accessor error panics *)
+Definition scalar_equal (q : quirks) (x y : node) : rres bool :=
+  match kind_of x with
+  | KNull => ROk true
+  | KBool => match as_bool x, as_bool y with Ok a, Ok b => ROk (Bool.eqb a b) | _, _ => RPanic end
+  | KInt =>
+    if q_uint_asint q then
+      match as_int x, as_int y with Ok a, Ok b => ROk (a =? b)%Z | _, _ => RPanic end
+    else
+      match x, y with
+      | (NInt a | NUint a), (NInt b | NUint b) => ROk (a =? b)%Z
+      | _, _ => RPanic
+      end
+  | KFloat => match as_float x, as_float y with Ok a, Ok b => ROk (f64_goeq a b) | _, _ => RPanic end
+  | KString => match as_string x, as_string y with Ok a, Ok b => ROk (bytes_eqb a b) | _, _ => RPanic end
+  | KBytes => match as_bytes x, as_bytes y with Ok a, Ok b => ROk (bytes_eqb a b) | _, _ => RPanic end
+  | KLink => match as_link x, as_link y with Ok a, Ok b => ROk (bytes_eqb a b) | _, _ => RPanic end
+  | _ => ROk false
+  end.
+
 Fixpoint deep_equal (q : quirks) (x y : node) {struct x} : rres bool :=
-  let scalar := fun (k : kind) =>
-    match k with
-    | KNull => ROk true
-    | KBool => match as_bool x, as_bool y with Ok a, Ok b => ROk (Bool.eqb a b) | _, _ => RPanic end
-    | KInt =>
-      if q_uint_asint q then
-        match as_int x, as_int y with Ok a, Ok b => ROk (a =? b)%Z | _, _ => RPanic end
-      else
-        match x, y with
-        | (NInt a | NUint a), (NInt b | NUint b) => ROk (a =? b)%Z
-        | _, _ => RPanic
-        end
-    | KFloat => match as_float x, as_float y with Ok a, Ok b => ROk (f64_goeq a b) | _, _ => RPanic end
-    | KString => match as_string x, as_string y with Ok a, Ok b => ROk (bytes_eqb a b) | _, _ => RPanic end
-    | KBytes => match as_bytes x, as_bytes y with Ok a, Ok b => ROk (bytes_eqb a b) | _, _ => RPanic end
-    | KLink => match as_link x, as_link y with Ok a, Ok b => ROk (bytes_eqb a b) | _, _ => RPanic end
-    | _ => ROk false
-    end in
   if negb (kind_eqb (kind_of x) (kind_of y)) then ROk false else
   match x with
   | NList xs | NFList xs =>
     match list_entries y with
     | None => RPanic
     | Some ys =>
-      if negb (Z.eqb (length_of x) (length_of y)) then ROk false else
-      (fix go (xs ys : list node) : rres bool :=
-         match xs, ys with
-         | a :: xs', b :: ys' => and_r (deep_equal q a b) (go xs' ys')
-         | _, _ => ROk true
-         end) xs ys
+      if negb (Z.eqb (length_of x) (length_of y)) then ROk false
+      else (fix go (xs ys : list node) : rres bool :=
+              match xs, ys with
+              | a :: xs', b :: ys' => and_r (deep_equal q a b) (go xs' ys')
+              | _, _ => ROk true
+              end) xs ys
     end
   | NMap xt _ | NFMap xt =>
     match map_entries y with
     | None => RPanic
     | Some ys =>
-      if negb (Z.eqb (length_of x) (length_of y)) then ROk false else
-      (fix go (xs : list (bytes * node)) (ys : list (node * node)) : rres bool :=
-         match xs, ys with
-         | (k, a) :: xs', (kn, b) :: ys' =>
-           and_r (match as_string kn with Ok k' => ROk (bytes_eqb k k') | Err _ => RPanic end)
-                 (and_r (deep_equal q a b) (go xs' ys'))
-         | _, _ => ROk true
-         end) xt ys
+      if negb (Z.eqb (length_of x) (length_of y)) then ROk false
+      else (fix go (xs : list (bytes * node)) (ys : list (node * node)) : rres bool :=
+              match xs, ys with
+              | (k, a) :: xs', (kn, b) :: ys' =>
+                and_r (key_eq k kn) (and_r (deep_equal q a b) (go xs' ys'))
+              | _, _ => ROk true
+              end) xt ys
     end
-  | _ => scalar (kind_of x)
+  | _ => scalar_equal q x y
   end.
 
 (* the specification side: equality of abstract values as DeepEqual defines it *)
@@ -423,40 +452,40 @@ Definition value_op (stk : list frame) (o : aop) : outcome :=
 
 (* plainMap__Assembler.AssignNode, the generic path: AssembleKey().AssignNode(k),
    AssembleValue().AssignNode(v) for every entry of the source, then Finish *)
-Fixpoint put_all (t m : list (bytes * node)) (es : list (bytes * node)) : outcome :=
+Fixpoint put_all (stk : list frame) (t m : list (bytes * node)) (es : list (bytes * node)) : outcome :=
   match es with
   | [] => OOk (SDone PMap (NMap t m))
   | (k, v) :: r =>
-    if mem_key k m then OErr ERepeatedKey (SOpen [FMap t m MaInitial; FRoot PMap])
-    else put_all (t ++ [(k, v)]) ((k, v) :: m) r
+    if mem_key k m then OErr ERepeatedKey (SOpen (FMap t m MaInitial :: stk))
+    else put_all stk (t ++ [(k, v)]) ((k, v) :: m) r
   end.
 
 Definition wrong (s : state) : outcome := OErr EWrongKind s.
 
 (* the typed root builders, nothing assigned yet (or, for scalars, at any time) *)
-Definition root_op (q : quirks) (p : proto) (s : state) (o : aop) : outcome :=
+Definition root_op (q : quirks) (p : proto) (stk : list frame) (s : state) (o : aop) : outcome :=
   match o with
   | AssembleKey | AssembleValue | AssembleEntry _ | Finish => ONoMethod
   | _ =>
   match p with
-  | PAny => value_op [FRoot PAny] o
+  | PAny => value_op stk o
   | PMap =>
     match o with
-    | BeginMap _ => OOk (SOpen [FMap [] [] MaInitial; FRoot PMap])
+    | BeginMap _ => OOk (SOpen (FMap [] [] MaInitial :: stk))
     | AssignNode (NMap t m) => OOk (SDone PMap (NMap t m))
     | AssignNode n =>
       match n with
       | NFMap t =>
         if q_pmap_nilmap q then
           match t with [] => OOk (SDone PMap (NMap [] [])) | _ => OPanic end
-        else put_all [] [] t
+        else put_all stk [] [] t
       | _ => wrong s
       end
     | _ => wrong s
     end
   | PList =>
     match o with
-    | BeginList _ => OOk (SOpen [FList [] LaInitial; FRoot PList])
+    | BeginList _ => OOk (SOpen (FList [] LaInitial :: stk))
     | AssignNode (NList x) => OOk (SDone PList (NList x))
     | AssignNode (NFList x) => OOk (SDone PList (NList x))
     | _ => wrong s
@@ -511,7 +540,7 @@ Definition step (q : quirks) (s : state) (o : aop) : outcome :=
   match s with
   | SDone p n =>
     (* the builder after its value is complete *)
-    if is_scalar_proto p then root_op q p s o            (* scalar builders simply overwrite *)
+    if is_scalar_proto p then root_op q p [FRoot p] s o            (* scalar builders simply overwrite *)
     else match o with
          | AssembleKey | AssembleValue | AssembleEntry _ | Finish => ONoMethod
          | _ =>
@@ -526,7 +555,7 @@ Definition step (q : quirks) (s : state) (o : aop) : outcome :=
            end
          end
   | SOpen [] => ONoMethod
-  | SOpen (FRoot p :: _) => root_op q p s o
+  | SOpen ((FRoot p :: _) as stk) => root_op q p stk s o
   | SOpen (FMap t m MaInitial :: r) =>
     match o with
     | AssembleKey => OOk (SOpen (FMap t m MaMidKey :: r))
